@@ -1203,6 +1203,25 @@ class Engine:
     def ev_ListComp(self, node, st):
         return self._comp(node, st, "list")
 
+    def ev_DictComp(self, node, st):
+        """{k: v for ...}: evaluated as the list of (k, v) pairs; keys must be concrete"""
+        pair = ast.Tuple(elts=[node.key, node.value], ctx=ast.Load())
+        lc = ast.ListComp(elt=pair, generators=node.generators)
+        ast.copy_location(pair, node)
+        ast.copy_location(lc, node)
+        res = []
+        for v, s in self._comp(lc, st, "list"):
+            if isinstance(v, Raise):
+                res.append((v, s))
+                continue
+            d = HDict()
+            for k, x in s.heap[v.oid].items:
+                if isinstance(k, (Sym, Opq, Ref)):
+                    raise Unsupported("dict comprehension with a symbolic key")
+                d.set(k, x)
+            res.append((s.alloc(d), s))
+        return res
+
     def _comp(self, node, st, kind):
         if len(node.generators) != 1:
             # [E for g1 for g2 ...] == the concatenation of [[E for g2 ...] for g1]
